@@ -162,7 +162,7 @@ func (cr *checkRun) harnessFuncs(pkgKey string) []string {
 			continue
 		}
 		for _, line := range strings.Split(string(src), "\n") {
-			if strings.HasPrefix(line, "func Verif") {
+			if strings.HasPrefix(line, "func Verif") && strings.Contains(line, "() {") {
 				name := line[5:strings.Index(line, "(")]
 				if !seen[name] {
 					seen[name] = true
@@ -439,7 +439,7 @@ func runCheck(pd *propDef, tier string, seed int, verifDir, only string, workers
 			for _, wo := range rep.Witnesses {
 				nr, err := cr.runNative(parts[0], tags, parts[1], wo.Model, params, 60*time.Second)
 				if err != nil {
-					inconclusive = append(inconclusive, hd.Name+": native replay: "+firstLine(err.Error()))
+					inconclusive = append(inconclusive, hd.Name+": native replay: "+oneLine(err.Error()))
 					break
 				}
 				want := []string{}
@@ -481,7 +481,7 @@ func runCheck(pd *propDef, tier string, seed int, verifDir, only string, workers
 			}
 			nr, err := cr.runNative(parts[0], tags, parts[1], v.Model, params, ntimeout)
 			if err != nil {
-				inconclusive = append(inconclusive, hd.Name+": native replay: "+firstLine(err.Error()))
+				inconclusive = append(inconclusive, hd.Name+": native replay: "+oneLine(err.Error()))
 				continue
 			}
 			if hd.Repeat > 0 && !reproduced(v, nr) {
@@ -496,14 +496,14 @@ func runCheck(pd *propDef, tier string, seed int, verifDir, only string, workers
 				}
 				os.Unsetenv("VERIF_JITTER")
 				if err != nil {
-					inconclusive = append(inconclusive, hd.Name+": native replay: "+firstLine(err.Error()))
+					inconclusive = append(inconclusive, hd.Name+": native replay: "+oneLine(err.Error()))
 					continue
 				}
 			}
 			if strings.HasPrefix(v.Label, "dual:") {
 				nr2, err := cr.runNative(parts[0], hd.DualTags, parts[1], v.Model, params, 60*time.Second)
 				if err != nil {
-					inconclusive = append(inconclusive, hd.Name+": native replay: "+firstLine(err.Error()))
+					inconclusive = append(inconclusive, hd.Name+": native replay: "+oneLine(err.Error()))
 					continue
 				}
 				same := strings.Join(nr.observes, "|") == strings.Join(nr2.observes, "|") && nr.panicMsg == nr2.panicMsg && nr.returned == nr2.returned
@@ -604,6 +604,14 @@ func runCheck(pd *propDef, tier string, seed int, verifDir, only string, workers
 }
 
 func labelKnown(cr *checkRun, prop, label string) bool { return false }
+
+func oneLine(s string) string {
+	s = strings.ReplaceAll(s, "\n", " | ")
+	if len(s) > 600 {
+		s = s[:600]
+	}
+	return s
+}
 
 func firstLine(s string) string {
 	if i := strings.Index(s, "\n"); i >= 0 {
